@@ -282,6 +282,7 @@ func (u *Unit) schemaIDs(decls ...*ast.FuncDecl) (map[string]bool, []string) {
 
 func runC08(c *Ctx) {
 	u, r := c.U, c.R
+	seedfixC08(c)
 	// ---- R-TYPE-TABLES
 	tSchema, unknown := u.schemaIDs(u.DeclByName("goTypeToArrowTypeAt"), u.DeclByName("structArrowType"))
 	for _, s := range unknown {
